@@ -37,8 +37,12 @@ def check_dqn(ctx, idx):
     n = ctx.budget(7, 12)
     E = int(rng.choice([1, 2]))
     policy = TabularQPolicy(env, rng.uniform(-1, 1, (nS, nA)), epsilon=0.3)
-    algo = DQN(buffer_size=16 * E, learning_starts=4, num_envs=E, num_steps=2, batch_size=4,
+    # incl. warm-ups shorter than one minibatch (learning_starts * num_envs < batch_size): legal, and the
+    # schedule does not depend on how full the buffer is
+    LS, B = [(4, 4), (4, 4), (1, 16 * E), (2, 8)][idx % 4]
+    algo = DQN(buffer_size=16 * E, learning_starts=LS, num_envs=E, num_steps=2, batch_size=B,
                target_update_interval=I, learning_rate=1e-2)
+    ctx.count(f"dqn:learning_starts={LS},batch_size={B}")
     cb = CallbackList(callbacks=[])
     key = jr.key(int(rng.integers(0, 2**31)))
     state = eqx.filter_jit(lambda k: algo.reset(env, policy, key=k, callback=cb))(key)
@@ -86,8 +90,12 @@ def check_sac(ctx, idx):
     E = int(rng.choice([1, 2]))
     policy = TabularSACPolicy(env, rng.uniform(-1, 1, nS), rng.uniform(-1, 0, nS))
     # the gating counts iterations, not environment steps
+    # temperatures far from the default (tiny, large, and — without autotuning — exactly 0: entropy bonus off)
+    alpha0 = float(rng.choice([0.2, 0.2, 1e-6, 30.0, 3e-5] + ([0.0] if not autotune else [])))
     algo = SAC(buffer_size=32 * E, learning_starts=4, num_envs=E, num_steps=T, batch_size=4, tau=tau,
-               policy_frequency=pf, autotune=autotune, q_width_size=4, q_depth=1, policy_lr=1e-2, q_lr=1e-2)
+               policy_frequency=pf, autotune=autotune, initial_alpha=alpha0, q_width_size=4, q_depth=1,
+               policy_lr=1e-2, q_lr=1e-2)
+    ctx.count(f"sac:initial_alpha={alpha0:g}")
     cb = CallbackList(callbacks=[])
     key = jr.key(int(rng.integers(0, 2**31)))
     state = eqx.filter_jit(lambda k: algo.reset(env, policy, key=k, callback=cb))(key)
@@ -101,7 +109,7 @@ def check_sac(ctx, idx):
                      _digest(state.policy), float(state.log_alpha), int(state.iteration_count)))
     actor_changed = [hist[k + 1][2] != hist[k][2] for k in range(n)]
     alpha_changed = [hist[k + 1][3] != hist[k][3] for k in range(n)]
-    case = {"kind": "sac-schedule", "tau": tau, "policy_frequency": pf, "autotune": autotune, "num_envs": E,
+    case = {"kind": "sac-schedule", "tau": tau, "policy_frequency": pf, "autotune": autotune, "initial_alpha": alpha0, "num_envs": E,
             "num_steps": T,
             "actor_changed": actor_changed, "alpha_changed": alpha_changed,
             "iteration_counts": [h[4] for h in hist]}
